@@ -427,8 +427,20 @@ type StormPlan struct {
 func genStorm(t *rapid.T) StormPlan {
 	p := StormPlan{Fn: rapid.SampledFrom([]string{"DoContext", "MapContext"}).Draw(t, "fn"),
 		N: rapid.IntRange(8, 200).Draw(t, "n"), Par: rapid.IntRange(2, 16).Draw(t, "par"), Rounds: rapid.IntRange(50, 300).Draw(t, "rounds")}
-	for k := rapid.IntRange(1, 3).Draw(t, "nfail"); k > 0; k-- {
-		p.Fail = append(p.Fail, rapid.IntRange(0, p.N-1).Draw(t, "fail"))
+	switch rapid.IntRange(0, 3).Draw(t, "failshape") {
+	case 0: // neighbours: handed to different workers at the same moment
+		base := rapid.IntRange(0, p.N-1).Draw(t, "fail")
+		for k := rapid.IntRange(2, 4).Draw(t, "nfail"); k > 0 && base < p.N; k, base = k-1, base+1 {
+			p.Fail = append(p.Fail, base)
+		}
+	case 1: // every call fails
+		for i := 0; i < p.N; i++ {
+			p.Fail = append(p.Fail, i)
+		}
+	default:
+		for k := rapid.IntRange(1, 3).Draw(t, "nfail"); k > 0; k-- {
+			p.Fail = append(p.Fail, rapid.IntRange(0, p.N-1).Draw(t, "fail"))
+		}
 	}
 	p.ErrKind = rapid.SampledFrom([]string{"", "", "deadline", "canceled", "mixed", "mixed"}).Draw(t, "errkind")
 	return p
